@@ -63,6 +63,7 @@ struct Stats
   std::map<std::string, Mismatch> wf; // C04 monitor violations
   std::vector<size_t> draws_hist;
   long cap_hits = 0;
+  long table_bins = 0; // spectrum-table bins compared with the reference (C02)
   std::string sample;
 };
 
